@@ -41,6 +41,10 @@ ID_B = [("cb",)]
 CO_LEAVES = [("ob",), ("obn",), ("obv",)]
 CI_LEAVES = [("ei",), ("fi",)]
 CB_LEAVES = [("eb",), ("eb0",), ("fb",)]
+# slot leaves: a silent read of a container slot next to calls that log and then WRITE that very slot (list element li[0] / lb[0], object
+# field hk.fi / hk.fb): the read must deliver the value the slot had at the read's own position in the left-to-right order
+SI_LEAVES = [("ei",), ("ue",), ("fi",), ("uf",)]
+SB_LEAVES = [("eb",), ("ueb",), ("fb",), ("ufb",)]
 IC_LEAVES = [("k2",), ("k0",)]
 BC_LEAVES = [("ct",), ("cf",)]
 LEAVES = {"I": I_LEAVES, "B": B_LEAVES, "O": O_LEAVES}
@@ -63,7 +67,7 @@ class leafset:
 
 def ty(n):
     k = n[0]
-    if k in ("bt", "bf", "vb", "ub", "ct", "cf", "cb", "eb", "eb0", "fb", "&&", "||", "^", "!") or k in CMP:
+    if k in ("bt", "bf", "vb", "ub", "ct", "cf", "cb", "eb", "eb0", "fb", "ueb", "ufb", "&&", "||", "^", "!") or k in CMP:
         return "B"
     if k in ("o", "on", "ob", "obn", "obv"):
         return "O"
@@ -254,6 +258,8 @@ class Builder:
             return ("field", V("hk"), "fi")
         if k == "fb":
             return ("field", V("hk"), "fb")
+        if k in ("ue", "ueb", "uf", "ufb"):
+            return ("call", V(k), [("int", self.nid())])
         if k == "v":
             return V("gx")
         if k == "u":
@@ -375,9 +381,17 @@ def prelude(used=None):
     iy = ("assign", "iy", lit(1), None, ())
     hcls = ("class", "Hk", [("fi", "int"), ("fb", "bool")], ([], [("setfield", V("self"), "fi", lit(2)), ("setfield", V("self"), "fb", ("bool", True))]), [])
     hk = ("assign", "hk", ("new", "Hk", []), None, ())
+    def mut(name, rt, target_read, store):
+        return ("assign", name, ("fn", [("i", "int")], rt,
+                                 [("print", ("bin", "+", ("str", name + " "), V("i"))), store, ("return", target_read)]), None, ())
+    e0, b0 = ("index", V("li"), lit(0)), ("index", V("lb"), lit(0))
+    ue = mut("ue", "int", e0, ("setindex", V("li"), lit(0), ("bin", "+", e0, lit(1))))
+    ueb = mut("ueb", "bool", b0, ("setindex", V("lb"), lit(0), ("not", b0)))
+    uf = mut("uf", "int", ("field", V("hk"), "fi"), ("setfield", V("hk"), "fi", ("bin", "+", ("field", V("hk"), "fi"), lit(1))))
+    ufb = mut("ufb", "bool", ("field", V("hk"), "fb"), ("setfield", V("hk"), "fb", ("not", ("field", V("hk"), "fb"))))
     lq = ("assign", "lq", ("list", [lit(2), lit(3)]), "[int...]", ())
     pq = ("assign", "pq", ("method", V("lq"), "index_of", [lit(3)]), None, ())
-    need = {"ob": [lq], "obn": [lq], "obv": [lq, pq], "ei": [li, ix], "eb": [lb, ix], "eb0": [lb, iy], "fi": [hcls, hk], "fb": [hcls, hk], "cn": [cnt, cn], "cb": [cnt, cb], "v": [gx], "u": [gx, u], "vb": [gb], "ub": [gb, ub], "t": [t], "r": [t, r], "bt": [bv], "bf": [bv], "o": [ov], "on": [ov], "f2": [f2], "f3": [f3], "f4": [f4],
+    need = {"ue": [li, ue], "ueb": [lb, ueb], "uf": [hcls, hk, uf], "ufb": [hcls, hk, ufb], "ob": [lq], "obn": [lq], "obv": [lq, pq], "ei": [li, ix], "eb": [lb, ix], "eb0": [lb, iy], "fi": [hcls, hk], "fb": [hcls, hk], "cn": [cnt, cn], "cb": [cnt, cb], "v": [gx], "u": [gx, u], "vb": [gb], "ub": [gb, ub], "t": [t], "r": [t, r], "bt": [bv], "bf": [bv], "o": [ov], "on": [ov], "f2": [f2], "f3": [f3], "f4": [f4],
             "sum3": [sum3], "idx": [pick], "+s": [slen], "msum": [msum], "m": [cls, ko],
             "iife": [], "fldm": [f2, holder, kh], "fldp": [f2, holder, kh], "elem": [f2, fl2], "res": [f2, mk2]}
     out = []
@@ -415,7 +429,7 @@ def body_of(tree, ctx, k=""):
     raise ValueError(ctx)
 
 
-ORDER = ["ob", "obn", "obv", "ei", "eb", "eb0", "fi", "fb", "cn", "cb", "v", "u", "vb", "ub", "t", "r", "bt", "bf", "o", "on", "f2", "f3", "f4", "sum3", "idx", "+s", "msum", "m"] + CALLEE_FORMS
+ORDER = ["ob", "obn", "obv", "ei", "eb", "eb0", "fi", "fb", "ue", "ueb", "uf", "ufb", "cn", "cb", "v", "u", "vb", "ub", "t", "r", "bt", "bf", "o", "on", "f2", "f3", "f4", "sum3", "idx", "+s", "msum", "m"] + CALLEE_FORMS
 
 
 def used_of(tree, ctx):
@@ -449,6 +463,14 @@ def build_group(items):
             ast.append(("assign", "gb", ("bool", True), None, ()))
         if u & {"cn", "cb"}:
             ast.append(("assign", "cnt", lit(0), None, ()))
+        if "ue" in u:
+            ast.append(("setindex", V("li"), lit(0), lit(2)))
+        if "ueb" in u:
+            ast.append(("setindex", V("lb"), lit(0), ("bool", True)))
+        if "uf" in u:
+            ast.append(("setfield", V("hk"), "fi", lit(2)))
+        if "ufb" in u:
+            ast.append(("setfield", V("hk"), "fb", ("bool", True)))
         ast += body_of(tree, ctx, str(k))
     ast.append(("print", ("str", "end")))
     return ast
@@ -472,7 +494,7 @@ class C15(Check):
     rule = ("typed expression trees whose leaves are logging calls t(i) (int), r(i) (recursive: re-enters the same code one frame deeper and "
             "evaluates a binary expression there), b(i) (bool true/false), o(i) (int? present/nil), and - in the variable-leaf layers - bare reads of a "
             "module variable (int gx / bool gb) next to calls u(i) / ub(i) that log, modify that variable and return it, so that a read "
-            "performed too late or too early is visible, and - in the constant-leaf layers - literals (true, false, 2, 0) next to logging siblings; nodes: every binary operator of the language (+ - * / % & | xor << >> < <= > >= == != && || ^), string concatenation, "
+            "performed too late or too early is visible, in the slot-leaf layers silent reads of a list element / object field next to calls that log and write that very slot, and - in the constant-leaf layers - literals (true, false, 2, 0) next to logging siblings; nodes: every binary operator of the language (+ - * / % & | xor << >> < <= > >= == != && || ^), string concatenation, "
             " f2..f4(E,..), obj.m(E,E), five further callee forms of a two-argument call (function literal called on the spot, function in a field through the object "
             "and through a parenthesised lookup, function from a list element, function returned by a call), list literal [E,E,E], list literal + index, map literal {E:E,E:E}, B&&B, B||B, !B, (O) or E; "
             "all trees of depth <=1, depth 2 with every child arbitrary for unary/binary nodes, depths 2-4 by rule 1 (one arbitrary child, "
@@ -517,6 +539,16 @@ class C15(Check):
             c1 = [n for n in depth1() if any(x in ("ei", "eb", "eb0", "fi", "fb", "ob", "obn", "obv") for x in _ops(n))]
             cm = {}
             c2 = [n for t in ("I", "B") for n in trees_rule1(2, t, cm) if tdepth(n) == 2 and any(x in ("ei", "eb", "eb0", "fi", "fb", "ob", "obn", "obv") for x in _ops(n))]
+        with leafset(I=SI_LEAVES + [("t",)], B=SB_LEAVES + [("bt",)]):
+            s1 = [n for n in depth1() if any(x in ("ue", "ueb", "uf", "ufb") for x in _ops(n))]
+        SOPS = {"-", "&&", "||", "!", "<", "==", "f2", "ei", "eb", "fi", "fb", "ue", "ueb", "uf", "ufb"}
+        s2 = []
+        for si, sb in ((SI_LEAVES[:2], SB_LEAVES[:2]), (SI_LEAVES[2:], SB_LEAVES[2:])):      # list slots, then field slots
+            with leafset(I=si, B=sb):
+                s2 += [n for t in ("I", "B") for n in trees_rule1(2, t, {}) if tdepth(n) == 2 and set(_ops(n)) <= SOPS
+                       and any(x in ("ue", "ueb", "uf", "ufb") for x in _ops(n))]
+        ls.append(("Ls0-depth1-slot-read+slot-mutator-leaves-all-contexts", [(n, c) for n in s1 for c in ctxs]))
+        ls.append(("Ls1-depth2-rule1-slot-read+slot-mutator-leaves", [(n, "print") for n in s2]))
         ls.append(("Lc0-depth1-carrier-leaves(list-element,field)-all-contexts", [(n, c) for n in c1 for c in ctxs]))
         ls.append(("Lc1-depth2-rule1-carrier-leaves", [(n, "print") for n in (c2 if tier == "thorough" else c2[::12])]))
         ls.append(("Lk0-depth1-constant-leaves-all-contexts", [(n, c) for n in k1 for c in ctxs]))
